@@ -52,6 +52,13 @@ def model_histories(run: Run, tier, seed):
                 .replace('EmitMode = "all"', 'EmitMode = "%s"' % mode).replace("VIEW ViewCover", "VIEW " + view))
 
     out = []
+    # implementation-shaped layer: union-find + path-stack DFS of connect_cycles, every iteration order, refines the abstract machine
+    consts = "NL = 3 MaxOps = 4" if tier == "quick" else "NL = 4 MaxOps = 5"
+    tlc.write_module(wd, "MC_EquivDBAlg", tlc.read_spec("MC_EquivDBAlg.tla"), tlc.read_spec("MC_EquivDBAlg.cfg").replace("NL = 3 MaxOps = 3", consts))
+    ra = tlc.require_ok(tlc.run_tlc(wd, "MC_EquivDBAlg", workers=16, timeout=3000, heap="12g"), "MC_EquivDBAlg")
+    run.add_tlc(ra, "MC_EquivDBAlg (implementation-shaped connect_cycles, all iteration orders) " + consts)
+    if ra.status == "violated":
+        run.tlc_violation(ra, "MC_EquivDBAlg")
     # complete state graph of the abstract machine over 3 labels (invariants), no export
     tlc.write_module(wd, "MC_EquivDB", body, cfg(3, 40, "none", "ViewCheck"))
     r = tlc.require_ok(tlc.run_tlc(wd, "MC_EquivDB", workers=16, timeout=1500), "MC_EquivDB check")
